@@ -22,7 +22,7 @@ import (
 
 func init() {
 	register(&Prop{ID: "C19", Run: runC19, MinNontrivial: 300,
-		Rule:        "cases = (key configuration with an encryption key: 12 subsets of {enc field, enc setter, sign field, sign setter}, RSA/ECDSA signing setter) x SignAuthnRequests x SkipSignatureValidation x issuer/ACS/SLO strings from the value classes x clocks in several zones x validity hours {-5,0,1,24,168,8760,1e5,2.5e6}; oracle on Metadata() and MetadataWithSLO(h): entityID, POST endpoints, flags, validUntil == now.UTC()+7d or +h hours, signing descriptor verifies a message the SP just signed (C13 oracle), encryption descriptor's key decrypts an IdP-signed assertion encrypted to it under each listed method (C11 oracle through ValidateEncodedResponse), xml.Marshal output well-formed and round-trips to equal values; non-trivial = both metadata variants were produced; distinct by parameter tuple; every returned descriptor is scribbled over in place after its case; class bare-signing-key (signer without certificate: a published signing key must be the key that signs); arbitrary IdentityProviderSSO/SLOBinding values; SP clocks in the last week of the certificates' validity; bundle key stores (every published certificate is checked)",
+		Rule:        "cases = (key configuration with an encryption key: 12 subsets of {enc field, enc setter, sign field, sign setter}, RSA/ECDSA signing setter) x SignAuthnRequests x SkipSignatureValidation x issuer/ACS/SLO strings from the value classes x clocks in several zones x validity hours {-5,0,1,24,168,8760,1e5,2.5e6}; oracle on Metadata() and MetadataWithSLO(h): entityID, POST endpoints, flags, validUntil == now.UTC()+7d or +h hours, signing descriptor verifies a message the SP just signed (C13 oracle), encryption descriptor's key decrypts an IdP-signed assertion encrypted to it under each listed method (C11 oracle through ValidateEncodedResponse), xml.Marshal output well-formed and round-trips to equal values; non-trivial = both metadata variants were produced; distinct by parameter tuple; every returned descriptor is scribbled over in place after its case; class bare-signing-key (signer without certificate: a published signing key must be the key that signs); arbitrary IdentityProviderSSO/SLOBinding values; SP clocks in the last week of the certificates' validity; bundle key stores (every published certificate is checked); metadata requested once before the final keys are set",
 		Assumptions: []string{"configurations without any encryption key are outside the domain (Metadata returns an error: the encryption key is documented as required)", "XMLName fields are ignored when comparing the round trip"}})
 }
 
